@@ -7,6 +7,7 @@ package main
 import (
 	"fmt"
 	"math"
+	"runtime"
 
 	"gonum.org/v1/gonum/graph"
 	"gonum.org/v1/gonum/graph/network"
@@ -125,10 +126,10 @@ func genPageRank(g *vlib.G) {
 		{n: 1, directed: true}, {n: 2, directed: true}, {n: 3, directed: true},
 		{n: 2, directed: true, weighted: true}, {n: 3, directed: true, weighted: true},
 		{n: 4, directed: true},
-		{n: 4, directed: true, weighted: true, stride: vlib.Pick(g, 499, 37), offset: 5},
+		{n: 4, directed: true, weighted: true, stride: vlib.Pick(g, 499, 11), offset: 5},
 	}
 	for _, s := range spaces {
-		forGraphs(s, s.stride <= 1, func(key string, mk func() *built) {
+		forGraphs(s, s.stride <= 1 && !s.rotate, func(key string, mk func() *built) {
 			g.Case(key, func(t *vlib.T) { checkPageRank(t, mk()) })
 		})
 		if g.Stopped() {
@@ -235,11 +236,53 @@ func genHITS(g *vlib.G) {
 		{n: 3, directed: true, weighted: true, stride: 7},
 		{n: 4, directed: true},
 	} {
-		forGraphs(s, s.stride <= 1, func(key string, mk func() *built) {
+		forGraphs(s, s.stride <= 1 && !s.rotate, func(key string, mk func() *built) {
 			g.Case(key, func(t *vlib.T) { checkHITS(t, mk()) })
 		})
 		if g.Stopped() {
 			return
 		}
 	}
+}
+
+// genHITSEdgeless is the only case that calls HITS on a graph without edges.
+// On the unrepaired code the first normalisation divides by zero, every score
+// becomes NaN and the loop never ends, so the call runs in its own goroutine
+// and the case gives up after a fixed number of scheduler yields (a
+// terminating call on 3 nodes finishes within the first one). The group is
+// registered last: a call that does not terminate keeps spinning in the
+// background until the shard exits.
+func genHITSEdgeless(g *vlib.G) {
+	g.Case("d3#0 edgeless", func(t *vlib.T) {
+		b := build(mkSpec(3, true, false, 0), 2, ordAsc)
+		done := make(chan map[int64]network.HubAuthority, 1)
+		go func() { done <- network.HITS(b.g.(graph.Directed), 1e-8) }()
+		var got map[int64]network.HubAuthority
+		finished := false
+		for i := 0; i < 50 && !finished; i++ {
+			select {
+			case got = <-done:
+				finished = true
+			default:
+				runtime.Gosched()
+			}
+		}
+		t.Nontrivial()
+		if !finished {
+			t.NoConfirm()
+			t.FailClass("hits-edgeless-no-termination", "HITS on a directed graph with 3 nodes and no edges does not terminate (0/0 in the first normalisation makes every score NaN, and NaN < tol never holds)")
+			t.Outcome("no-termination")
+			return
+		}
+		// Without links nothing is a hub or an authority: finite scores, one per node.
+		if len(got) != 3 {
+			t.Failf("HITS on the edgeless graph returned %d entries for 3 nodes", len(got))
+		}
+		for id, ha := range got {
+			if math.IsNaN(ha.Hub) || math.IsNaN(ha.Authority) || math.IsInf(ha.Hub, 0) || math.IsInf(ha.Authority, 0) {
+				t.Failf("HITS on the edgeless graph: node %d has scores %+v", id, ha)
+			}
+		}
+		t.Outcome("terminates")
+	})
 }
